@@ -161,7 +161,7 @@ def fault_cases(tier):
     quick = tier == 'quick'
     out = []
     K1 = 12 if quick else 40
-    K2 = 0 if quick else 16
+    K2 = 0 if quick else 12
     for system in ('bin', 'tern'):
         for it in ('euler', 'rk4'):
             for temp in (['iso', 'hrh', 'iso_hot'] if quick else ['iso', 'hrh', 'heat', 'iso_hot']):   # iso_hot: undersaturated
@@ -197,7 +197,7 @@ def run(ctx):
                 'faults: every placement of 0/1 (thorough: 2) "no result" answers among the first K interceptable calls of each '
                 'backend method; non-trivial = run with precipitates / execution with a fault placement')
     ctx.bounds = {'config_runs': len(cc), 'fault_groups': len(fc),
-                  'K_single': 12 if ctx.quick else 40, 'K_pairs': 0 if ctx.quick else 16, 'fault_methods': FAULT_METHODS}
+                  'K_single': 12 if ctx.quick else 40, 'K_pairs': 0 if ctx.quick else 12, 'fault_methods': FAULT_METHODS}
     ctx.assumptions = ['analytic backends; a fault is the documented "no result" answer of the method: None for '
                        'getGrowthAndInterfacialComposition, the previous/None impingement factor, (None, None) for getDrivingForce, '
                        'the -1 sentinel for getInterfacialComposition']
